@@ -579,4 +579,169 @@ theorem loopC_no_colon (front body : Str) (h : ':' ∉ body) :
     (cStart (front.length + 1)) ⟨rfl, rfl, Nat.le_refl _, Nat.le_refl _⟩
   exact this.1.2.1
 
+/-! ### indented NumPy docstrings (as they sit in a function body) -/
+
+/-- a line = its indentation ++ its content -/
+theorem line_decomp (l : Str) : ∃ ws, l = ws ++ lstrip l ∧ ws.length = leadingWs l ∧ ∀ c ∈ ws, isSpaceC c = true :=
+  ⟨l.takeWhile isSpaceC, (List.takeWhile_append_dropWhile).symm, rfl, fun c hc => mem_takeWhile_pred isSpaceC l c hc⟩
+
+theorem tokRun_spaces (ws : Str) (i : Nat) (lf : Option Int) (pen : Str) (h : ∀ c ∈ ws, isSpaceC c = true) :
+    tokRun ws i (lf, pen, []) = (lf, pen, []) := by
+  induction ws generalizing i with
+  | nil => rfl
+  | cons c cs ih =>
+    have hc := h c List.mem_cons_self
+    simp only [tokRun, tokStep, hc, if_true, List.isEmpty_nil]
+    exact ih _ (fun x hx => h x (List.mem_cons_of_mem _ hx))
+
+/-- the walker over an indented heading line and an indented underline line -/
+theorem tokRun_heading_ind (wsK K wsD D : Str) (i : Nat) (lf : Option Int) (pen : Str)
+    (hwK : ∀ c ∈ wsK, isSpaceC c = true) (hwD : ∀ c ∈ wsD, isSpaceC c = true)
+    (hK : inSet numpySet K = true) (hD : allDashes D = true) (hDne : D ≠ []) :
+    tokRun ((wsK ++ K) ++ '\n' :: ((wsD ++ D) ++ ['\n'])) i (lf, pen, [])
+      = (some (((i + wsK.length + K.length + 1 + wsD.length + K.length : Nat) : Int)), D, []) := by
+  obtain ⟨hKw, hKd, hKt, hKne, _⟩ := numpy_word_facts K hK
+  obtain ⟨hDw, _⟩ := dashes_facts D hD
+  have hKe : K.isEmpty = false := by cases K with | nil => exact absurd rfl hKne | cons _ _ => rfl
+  have hDe : D.isEmpty = false := by cases D with | nil => exact absurd rfl hDne | cons _ _ => rfl
+  rw [List.append_assoc, tokRun_append, tokRun_spaces wsK i lf pen hwK, tokRun_append, tokRun_word K _ lf pen [] hKw]
+  simp only [List.nil_append, tokRun]
+  have hs1 : tokStep (i + wsK.length + K.length) (lf, pen, K) '\n' = (some (((i + wsK.length + K.length : Nat) : Int) - K.length), K, []) := by
+    simp [tokStep, isSpaceC_nl, hKe, hKd, hKt]
+  rw [hs1, List.append_assoc, tokRun_append, tokRun_spaces wsD _ _ K hwD, tokRun_append, tokRun_word D _ _ K [] hDw]
+  simp only [List.nil_append, tokRun]
+  have hs2 : tokStep (i + wsK.length + K.length + 1 + wsD.length + D.length)
+      (some (((i + wsK.length + K.length : Nat) : Int) - K.length), K, D) '\n'
+      = (some (((i + wsK.length + K.length + 1 + wsD.length + D.length : Nat) : Int) - D.length + K.length), D, []) := by
+    simp [tokStep, isSpaceC_nl, hDe, hD, hK]
+  rw [hs2]
+  congr 2
+  omega
+
+/-- `_get_token_start_idx` when the first heading (and its underline) may be indented: the look-ahead skips as many
+    characters of the next line as the heading has indentation -/
+theorem numpy_start_ind (hs : List Str) (F0 F1 rest : Str)
+    (hh : hs.all headerLineOk = true) (hF0nl : '\n' ∉ F0) (hF1nl : '\n' ∉ F1)
+    (hF0 : inSet numpySet (lstrip F0) = true) (hle : leadingWs F0 ≤ F1.length)
+    (hF1 : allDashes (F1.drop (leadingWs F0)) = true) :
+    tokenStartIdx (unlines hs ++ F0 ++ '\n' :: (F1 ++ '\n' :: rest)).toArray = ((unlines hs).length : Int) := by
+  rw [tokenStartIdx_eq]
+  generalize hdd : unlines hs ++ F0 ++ '\n' :: (F1 ++ '\n' :: rest) = d
+  have hd1 : d = unlines hs ++ (F0 ++ '\n' :: (F1 ++ '\n' :: rest)) := by rw [← hdd]; simp
+  have hd2 : d = (unlines hs ++ F0 ++ ['\n'] ++ F1.take (leadingWs F0)) ++ F1.drop (leadingWs F0) ++ '\n' :: rest := by
+    rw [← hdd]
+    simp only [List.append_assoc, List.cons_append, List.nil_append]
+    congr 3
+    rw [← List.append_assoc, List.take_append_drop]
+  have hstep : startScan d d 0 [] = startScan d (F0 ++ '\n' :: (F1 ++ '\n' :: rest)) (0 + (unlines hs).length) [] := by
+    conv => lhs; arg 2; rw [hd1]
+    exact startScan_header d hs _ 0 (headerOk_sound hs hh)
+  rw [hstep, startScan_fire_numpy d F0 _ _ hF0nl hF0]
+  · simp
+  · have hi : leadingWs F0 + (0 + (unlines hs).length + F0.length) + 1
+        = (unlines hs ++ F0 ++ ['\n'] ++ F1.take (leadingWs F0)).length := by
+      simp only [List.length_append, List.length_singleton, List.length_take]; omega
+    rw [hi]
+    have hfind : findAtI d ['\n'] (unlines hs ++ F0 ++ ['\n'] ++ F1.take (leadingWs F0)).length
+        = (((unlines hs ++ F0 ++ ['\n'] ++ F1.take (leadingWs F0)).length + (F1.drop (leadingWs F0)).length : Nat) : Int) := by
+      rw [hd2]; exact findAtI_line _ _ rest (notMem_drop _ hF1nl)
+    rw [hfind, slice_mid_nat]
+    have aux : ∀ a b c : Str, (a ++ b ++ c).drop a.length = b ++ c := by
+      intro a b c; rw [List.append_assoc, List.drop_left]
+    have : d.drop (unlines hs ++ F0 ++ ['\n'] ++ F1.take (leadingWs F0)).length = F1.drop (leadingWs F0) ++ '\n' :: rest := by
+      rw [hd2]; exact aux _ _ _
+    rw [this]
+    generalize (unlines hs ++ F0 ++ ['\n'] ++ F1.take (leadingWs F0)).length = n
+    have h2 : n + (F1.drop (leadingWs F0)).length - n = (F1.drop (leadingWs F0)).length := by omega
+    rw [h2, List.take_left']
+    · exact hF1
+    · rfl
+
+theorem raises_not_dashes : allDashes "Raises:".toList = false := by decide
+
+/-- **indented NumPy**: the underline line `D'` is indented, so neither the numpydoc exit of `_get_end_of_last_found` nor the
+    line loop of `_get_token_last_idx_if_no_next_token` is taken (both test for a line made of dashes *only*); the body
+    starts with white space, and the answer is that of the absorbed shape -/
+theorem numpy_ind_last (pre0 K' D' body : Str)
+    (hpre0 : pre0 = [] ∨ ∃ c, pre0.getLast? = some c ∧ isSpaceC c = true)
+    (hD'nl : '\n' ∉ D')
+    (hK : inSet numpySet (lstrip K') = true) (hD : allDashes (lstrip D') = true)
+    (hKD : (lstrip K').length ≤ (lstrip D').length) (hind : 1 ≤ leadingWs D')
+    (hbody : ∃ w ws, body = w :: ws ∧ isSpaceC w = true) (hq : quiet none [] body = true) :
+    tokenLastIdx (pre0 ++ K' ++ '\n' :: (D' ++ '\n' :: body)).toArray
+      = .ok ((((pre0 ++ K' ++ '\n' :: (D' ++ '\n' :: body)).length
+                - (absorbedFooter (pre0 ++ K' ++ '\n' :: (D' ++ '\n' :: body))).length : Nat)) : Int) := by
+  obtain ⟨wsK, hK'e, hwKl, hwK⟩ := line_decomp K'
+  obtain ⟨wsD, hD'e, hwDl, hwD⟩ := line_decomp D'
+  generalize hKd : lstrip K' = K at *
+  generalize hDd : lstrip D' = D at *
+  obtain ⟨_, _, _, hKne, _⟩ := numpy_word_facts K hK
+  have hK1 : 1 ≤ K.length := List.length_pos_iff.mpr hKne
+  have hDne : D ≠ [] := by intro e; rw [e] at hKD; simp only [List.length_nil] at hKD; omega
+  have hK'l : K'.length = wsK.length + K.length := by rw [hK'e]; simp
+  have hD'l : D'.length = wsD.length + D.length := by rw [hD'e]; simp
+  generalize hdd : pre0 ++ K' ++ '\n' :: (D' ++ '\n' :: body) = d
+  -- the last token
+  have hlf : lastDocStrToken d.toArray = some (((pre0.length + wsK.length + K.length + 1 + wsD.length + K.length : Nat) : Int)) := by
+    have hd : d = pre0 ++ (((wsK ++ K) ++ '\n' :: ((wsD ++ D) ++ ['\n'])) ++ body) := by
+      rw [← hdd, hK'e, hD'e]; simp
+    rw [hd, lastDocStrToken_eq, tokScan_eq_run, tokRun_append, tokRun_append]
+    have h1 : (tokRun pre0 0 (none, [], [])).2.2 = [] := tokRun_stack_nil pre0 0 _ rfl hpre0
+    generalize tokRun pre0 0 (none, [], []) = σ1 at h1 ⊢
+    obtain ⟨lf1, pen1, st1⟩ := σ1
+    simp only at h1; subst h1
+    rw [tokRun_heading_ind wsK K wsD D _ lf1 pen1 hwK hwD hK hD hDne]
+    rw [quiet_sound body _ _ none D [] (Or.inl rfl) hq]
+    congr 2; omega
+  -- the absorbed shape with `L := D'`
+  have hd1 : d = (pre0 ++ K') ++ ['\n'] ++ D' ++ '\n' :: body := by rw [← hdd]; simp
+  obtain ⟨A, hA⟩ := lastLine_decomp d (by rw [← hdd]; simp)
+  have hp : pre0 ++ K' ≠ [] := by
+    intro e
+    have := congrArg List.length e
+    simp only [List.length_append, List.length_nil] at this; omega
+  have hpl : ((pre0 ++ K') ++ ['\n']).length = pre0.length + wsK.length + K.length + 1 := by
+    simp only [List.length_append, List.length_singleton]; omega
+  have hwD1 : 1 ≤ wsD.length := by omega
+  obtain ⟨w0, wsD', hwsD⟩ : ∃ w0 wsD', wsD = w0 :: wsD' := by
+    cases wsD with
+    | nil => simp at hwD1
+    | cons a b => exact ⟨a, b, rfl⟩
+  have hw0 : isSpaceC w0 = true := hwD w0 (by rw [hwsD]; exact List.mem_cons_self)
+  have hw0d : (w0 == '-') = false := by
+    cases h : (w0 == '-') with
+    | false => rfl
+    | true => rw [beq_iff_eq.mp h] at hw0; exact absurd hw0 (by decide)
+  have hdash : (!D'.isEmpty && allDashes D') = false := by
+    rw [hD'e, hwsD]; simp [allDashes, hw0d]
+  have hnb : (deriveFormat d.toArray == .numpydoc
+      && allDashes (slice d (some ((((pre0 ++ K') ++ ['\n']).length : Nat) : Int))
+          (some (((pre0.length + wsK.length + K.length + 1 + wsD.length + K.length : Nat) : Int))))) = false := by
+    rw [slice_mid_nat]
+    have aux : ∀ a b c : Str, (a ++ b ++ c).drop a.length = b ++ c := by
+      intro a b c; rw [List.append_assoc, List.drop_left]
+    have : d.drop ((pre0 ++ K') ++ ['\n']).length = D' ++ '\n' :: body := by
+      rw [hd1]; exact aux _ _ _
+    rw [this, hD'e, hwsD, hpl]
+    have h2 : pre0.length + wsK.length + K.length + 1 + (w0 :: wsD').length + K.length - (pre0.length + wsK.length + K.length + 1)
+        = ((w0 :: wsD').length + K.length - 1) + 1 := by simp only [List.length_cons]; omega
+    rw [h2]
+    simp [allDashes, hw0d]
+  have hlast := last_absorbed_gen d (pre0 ++ K') D' body A (lastLine d)
+    (((pre0.length + wsK.length + K.length + 1 + wsD.length + K.length : Nat) : Int)) hd1 hA hlf
+    (by rw [hpl]; omega) (by rw [hpl, hD'l]; omega) hp hD'nl (lastLine_noNl d) hbody hdash hnb
+  have hverd : lineVerdict ((pre0 ++ K') ++ ['\n']).length D' = none := by
+    unfold lineVerdict
+    have : (lstrip D' == "Raises:".toList) = false := by
+      cases h : (lstrip D' == "Raises:".toList) with
+      | false => rfl
+      | true => rw [hDd] at h; rw [beq_iff_eq.mp h, raises_not_dashes] at hD; cases hD
+    rw [this]; rfl
+  rw [hverd, absorbed_last d A hA] at hlast
+  rw [hlast]
+  congr 1
+  by_cases ht : startsWithAny tokensSet (lstrip (lastLine d)) = true
+  · simp [ht, absorbedFooter]
+  · simp [ht]
+
 end DSS
